@@ -10,7 +10,8 @@ Lemma xneg_fin q : xneg (Fin q) = Fin (- q). Proof. reflexivity. Qed.
 Lemma xadd_fin p q : xadd (Fin p) (Fin q) = Fin (p + q). Proof. reflexivity. Qed.
 Lemma xmul_fin p q : xmul (Fin p) (Fin q) = Fin (p * q). Proof. reflexivity. Qed.
 Lemma xabs_fin q : xabs (Fin q) = Fin (Qabs q). Proof. reflexivity. Qed.
-Ltac xfin := unfold xsub; rewrite ?xneg_fin, ?xadd_fin, ?xmul_fin, ?xabs_fin, ?xadd_fin, ?xmul_fin.
+Ltac xfin := unfold xsub;
+  repeat (rewrite xneg_fin || rewrite xadd_fin || rewrite xmul_fin || rewrite xabs_fin).
 
 (* ---- closed forms on finite inputs ------------------------------------------------------ *)
 Definition qpv (p n : Q) : Q := p * (1 + - p) / n.            (* p (1-p) / n as evaluated *)
@@ -227,7 +228,9 @@ Theorem legacy_tabs_eq p n p0 n0 s :
 Proof.
   intros E Hs. unfold legacy_tabs, t_tabs. rewrite E.
   assert (L : xltb (Fin s) (Fin 0) = false) by (apply xltb_fin_false; exact Hs).
-  rewrite L. unfold xabs at 2. rewrite (Qabs_pos s Hs). reflexivity.
+  rewrite L. rewrite (xabs_fin s).
+  assert (Q : Fin (Qabs s) =x= Fin s) by (unfold xeq; apply Qabs_pos; exact Hs).
+  rewrite Q. reflexivity.
 Qed.
 
 Theorem legacy_base_no_squared ub : legacy_base ub None = ub.
@@ -272,9 +275,12 @@ Theorem welch_antisym m s n m0 s0 n0 :
   welch_tabs m0 s0 n0 m s n =x= xneg (welch_tabs m s n m0 s0 n0).
 Proof.
   unfold welch_tabs.
-  rewrite (xadd_comm (xdiv (xmul s0 s0) n0) (xdiv (xmul s s) n)).
-  destruct (xltb (xadd (xdiv (xmul s s) n) (xdiv (xmul s0 s0) n0)) (Fin 0)); [reflexivity|].
-  rewrite (xsub_antisym m m0). rewrite xmul_xabs_neg. apply xdiv_xneg_l.
+  set (V := xadd (xdiv (xmul s s) n) (xdiv (xmul s0 s0) n0)).
+  set (V' := xadd (xdiv (xmul s0 s0) n0) (xdiv (xmul s s) n)).
+  assert (EV : V' =x= V) by apply xadd_comm.
+  assert (EL : xltb V' (Fin 0) = xltb V (Fin 0)) by (rewrite EV; reflexivity).
+  rewrite EL. destruct (xltb V (Fin 0)); [reflexivity|].
+  rewrite EV. rewrite (xsub_antisym m m0). rewrite xmul_xabs_neg. apply xdiv_xneg_l.
 Qed.
 
 Theorem welch_df_sym s n s0 n0 : welch_df s0 n0 s n =x= welch_df s n s0 n0.
@@ -295,12 +301,12 @@ Theorem welch_df_formula s n s0 n0 :
   welch_df (Fin s) (Fin n) (Fin s0) (Fin n0) =x=
   Fin ((a + b) * (a + b) / (a * a / (n - 1) + b * b / (n0 - 1))).
 Proof.
-  intros Hn Hn0 H1 H2 a b HD. unfold welch_df, xsq, xsub.
-  simpl xmul. rewrite !xdiv_fin by assumption. simpl xneg. simpl xadd. simpl xmul.
+  intros Hn Hn0 H1 H2 a b HD. unfold welch_df, xsq.
   assert (E1 : ~ n + - (1) == 0) by (unfold Qminus in H1; exact H1).
   assert (E2 : ~ n0 + - (1) == 0) by (unfold Qminus in H2; exact H2).
-  rewrite !xdiv_fin by assumption. simpl xadd.
-  rewrite xdiv_fin.
+  xfin. rewrite !(xdiv_fin _ n), !(xdiv_fin _ n0) by assumption.
+  xfin. rewrite (xdiv_fin _ (n + - (1))), (xdiv_fin _ (n0 + - (1))) by assumption.
+  xfin. rewrite xdiv_fin.
   - unfold xeq, a, b, Qminus. reflexivity.
   - unfold a, b, Qminus in HD. exact HD.
 Qed.
@@ -314,10 +320,10 @@ Lemma ov_se2_fin Sa Sb Sab Na Nb Nab :
   ~ Na == 0 -> ~ Nb == 0 -> ~ Nab == 0 -> ~ Na + Nb - Nab == 0 ->
   ov_se2 (Fin Sa) (Fin Sb) (Fin Sab) (Fin Na) (Fin Nb) (Fin Nab) =x= Fin (qov Sa Sb Sab Na Nb Nab).
 Proof.
-  intros H1 H2 H3 H4. unfold ov_se2, ov_df, xsub.
-  rewrite !xdiv_fin by assumption. simpl xneg. simpl xadd.
-  rewrite xdiv_fin by (unfold Qminus in H4; exact H4).
-  simpl. unfold qov, Qminus. reflexivity.
+  intros H1 H2 H3 H4. unfold ov_se2, ov_df.
+  rewrite (xdiv_fin Sa Na), (xdiv_fin Sb Nb), (xdiv_fin Sab Nab) by assumption.
+  xfin. rewrite xdiv_fin by (unfold Qminus in H4; exact H4).
+  xfin. unfold xeq, qov, Qminus. reflexivity.
 Qed.
 
 Theorem ov_formula cpa cpb Sa Sb Sab Na Nb Nab :
@@ -328,9 +334,10 @@ Theorem ov_formula cpa cpb Sa Sb Sab Na Nb Nab :
 Proof.
   intros H1 H2 H3 H4 HS. unfold ov_tabs.
   pose proof (ov_se2_fin Sa Sb Sab Na Nb Nab H1 H2 H3 H4) as E.
-  rewrite E.
-  assert (L : xltb (Fin (qov Sa Sb Sab Na Nb Nab)) (Fin 0) = false) by (apply xltb_fin_false; lra).
-  rewrite L. xfin.
+  set (sv := ov_se2 (Fin Sa) (Fin Sb) (Fin Sab) (Fin Na) (Fin Nb) (Fin Nab)) in *.
+  assert (L : xltb sv (Fin 0) = false).
+  { rewrite E. apply xltb_fin_false. lra. }
+  rewrite L. rewrite E. xfin.
   rewrite xdiv_fin by (intros Z; lra). unfold xeq, Qminus. reflexivity.
 Qed.
 
@@ -338,8 +345,7 @@ Lemma qov_sym Sa Sb Sab Na Nb Nab :
   ~ Na == 0 -> ~ Nb == 0 -> ~ Nab == 0 -> ~ Na + Nb - Nab == 0 ->
   qov Sb Sa Sab Nb Na Nab == qov Sa Sb Sab Na Nb Nab.
 Proof.
-  intros. unfold qov. field. repeat split; try assumption.
-  intros E. apply H2. lra.
+  intros. unfold qov. field. repeat split; try assumption; intros E; lra.
 Qed.
 
 (* antisymmetric in (a, b) off the diagonal (finite counts, non-zero bases) *)
@@ -350,13 +356,15 @@ Theorem ov_antisym cpa cpb Sa Sb Sab Na Nb Nab :
 Proof.
   intros H1 H2 H3 H4. unfold ov_tabs.
   assert (H4' : ~ Nb + Na - Nab == 0) by (intros E; apply H4; lra).
-  rewrite (ov_se2_fin Sb Sa Sab Nb Na Nab H2 H1 H3 H4').
-  rewrite (ov_se2_fin Sa Sb Sab Na Nb Nab H1 H2 H3 H4).
-  assert (Q : Fin (qov Sb Sa Sab Nb Na Nab) =x= Fin (qov Sa Sb Sab Na Nb Nab))
-    by (apply qov_sym; assumption).
-  rewrite Q.
-  destruct (xltb (Fin (qov Sa Sb Sab Na Nb Nab)) (Fin 0)); [reflexivity|].
-  rewrite (xsub_antisym (Fin cpb) (Fin cpa)). rewrite xmul_xabs_neg. apply xdiv_xneg_l.
+  pose proof (ov_se2_fin Sb Sa Sab Nb Na Nab H2 H1 H3 H4') as E1.
+  pose proof (ov_se2_fin Sa Sb Sab Na Nb Nab H1 H2 H3 H4) as E2.
+  set (s1 := ov_se2 (Fin Sb) (Fin Sa) (Fin Sab) (Fin Nb) (Fin Na) (Fin Nab)) in *.
+  set (s2 := ov_se2 (Fin Sa) (Fin Sb) (Fin Sab) (Fin Na) (Fin Nb) (Fin Nab)) in *.
+  assert (Q : s1 =x= s2).
+  { rewrite E1, E2. apply qov_sym; assumption. }
+  assert (EL : xltb s1 (Fin 0) = xltb s2 (Fin 0)) by (rewrite Q; reflexivity).
+  rewrite EL. destruct (xltb s2 (Fin 0)); [reflexivity|].
+  rewrite Q. rewrite (xsub_antisym (Fin cpb) (Fin cpa)). rewrite xmul_xabs_neg. apply xdiv_xneg_l.
 Qed.
 
 Theorem ov_df_sym Na Nb Nab : ov_df Nb Na Nab =x= ov_df Na Nb Nab.
